@@ -521,3 +521,287 @@ Section Connect.
     - destruct Inv as [Hf _]. congruence.
   Qed.
 End Connect.
+
+(* ---- from the acknowledgement to the Connect call -------------------------- *)
+Section FromAck.
+  Variable ord : list str -> list str.
+  Variable cfg : cap_cfg.
+  Variable port : Z.
+
+  Lemma start_conn_upgrade_eq s c rest st outs :
+    c_ssl cfg = false -> sts_enabled s = false -> cs_dial_ok c = true -> c_tracking cfg = true ->
+    run_events ord cfg false (cap_init s) (cs_events c) = (st, outs, StopUpgrade) ->
+    start_conn ord cfg port s (c :: rest) =
+    (mkLog port false true outs :: fst (fst (start_conn ord cfg port (set_begin_upgrade false (st_sts st)) rest)),
+     snd (fst (start_conn ord cfg port (set_begin_upgrade false (st_sts st)) rest)),
+     snd (start_conn ord cfg port (set_begin_upgrade false (st_sts st)) rest)).
+  Proof.
+    intros Hssl He Hd Htr Hrun.
+    cbn [start_conn]. unfold new_conn. rewrite Hd, Hssl, He, Htr. cbn [negb orb andb].
+    rewrite Hrun. cbn [fst snd]. rewrite (server_port_disabled port s He).
+    destruct (start_conn ord cfg port (set_begin_upgrade false (st_sts st)) rest) as [[lg rt] sf]. reflexivity.
+  Qed.
+
+  Lemma next_dial_tls s1 c2 rest2 :
+    sts_enabled s1 = true ->
+    exists l ret s', start_conn ord cfg port s1 (c2 :: rest2) = ([l], ret, s') /\
+                     dialled l (upgrade_port s1) true /\ l_connected l = cs_dial_ok c2.
+  Proof.
+    intros En. destruct (persist_call ord cfg port s1 c2 rest2 En) as [l [ret [s' [E D]]]].
+    destruct (start_conn_first ord cfg port s1 c2 rest2) as [l0 [logs0 [ret0 [s0 [E0 [_ Hc0]]]]]].
+    rewrite E in E0. injection E0 as <- _ _ _. exists l, ret, s'. repeat split; try apply D; assumption.
+  Qed.
+
+  (* C10_upgrade with the hypothesis on the acknowledgement itself *)
+  Lemma upgrade_from_ack s c rest pre now a toks post st1 outs1 p :
+    c_ssl cfg = false -> sts_enabled s = false -> cs_dial_ok c = true -> c_tracking cfg = true ->
+    c_disable_sts cfg = false ->
+    cs_events c = pre ++ (now, ack_params a toks) :: post ->
+    run_events ord cfg false (cap_init s) pre = (st1, outs1, StopNone) ->
+    acks_sts toks -> usable_port (advertised_policy st1) p ->
+    let s1 := set_begin_upgrade false (set_upgrade_port p s) in
+    start_conn ord cfg port s (c :: rest) =
+      (mkLog port false true (outs1 ++ [[Upgrade]]) :: fst (fst (start_conn ord cfg port s1 rest)),
+       snd (fst (start_conn ord cfg port s1 rest)), snd (start_conn ord cfg port s1 rest)) /\
+    Forall only_writes outs1 /\
+    sts_enabled s1 = true /\ upgrade_port s1 = p /\
+    (forall c2 rest2, rest = c2 :: rest2 ->
+       exists l ret s', start_conn ord cfg port s1 rest = ([l], ret, s') /\ dialled l p true /\
+                        l_connected l = cs_dial_ok c2).
+  Proof.
+    intros Hssl He Hd Htr Hdis Hev Hpre Hack Hport.
+    pose proof (run_events_inv ord cfg false pre (cap_init s)) as Inv1.
+    rewrite Hpre in Inv1. unfold run_inv in Inv1. cbn [fst snd cap_init st_sts] in Inv1.
+    destruct Inv1 as [Hall1 [_ Q1]]. apply quiet_rel_plain in Q1.
+    pose proof (ack_upgrade_event ord cfg now st1 a toks _ p Hdis (acks_sts_value st1 toks Hack) Hport) as Hstep.
+    assert (Hrun : run_events ord cfg false (cap_init s) (cs_events c) =
+                   (mkSt (st_tmp st1) (ack_enabled st1 toks) (set_begin_upgrade true (set_upgrade_port p (st_sts st1))),
+                    outs1 ++ [[Upgrade]], StopUpgrade)).
+    { rewrite Hev. rewrite (run_events_app ord cfg false pre _ _ _ now (ack_params a toks) post Hpre).
+      - rewrite Hstep. reflexivity.
+      - rewrite Hstep. discriminate. }
+    pose proof (start_conn_upgrade_eq s c rest _ _ Hssl He Hd Htr Hrun) as Eq.
+    cbn [st_sts] in Eq. rewrite Q1 in Eq.
+    change (set_begin_upgrade false (set_begin_upgrade true (set_upgrade_port p s)))
+      with (set_begin_upgrade false (set_upgrade_port p s)) in Eq.
+    destruct Hport as [ps [_ [_ Hge]]].
+    assert (En : sts_enabled (set_begin_upgrade false (set_upgrade_port p s)) = true).
+    { unfold sts_enabled. cbn [upgrade_port set_begin_upgrade set_upgrade_port]. lia. }
+    cbv zeta. split; [exact Eq|]. split; [exact Hall1|]. split; [exact En|]. split; [reflexivity|].
+    intros c2 rest2 ->. exact (next_dial_tls _ c2 rest2 En).
+  Qed.
+
+  (* C10_invalid with the hypothesis on the acknowledgement itself *)
+  Lemma invalid_from_ack s c rest pre now a toks post st1 outs1 :
+    let tls := c_ssl cfg || sts_enabled s in
+    cs_dial_ok c = true -> (tls = true -> cs_hs_ok c = true) -> c_tracking cfg = true ->
+    c_disable_sts cfg = false ->
+    cs_events c = pre ++ (now, ack_params a toks) :: post ->
+    run_events ord cfg tls (cap_init s) pre = (st1, outs1, StopNone) ->
+    acks_sts toks ->
+    (tls = false /\ no_usable_port (advertised_policy st1)) \/ (tls = true /\ no_duration (advertised_policy st1)) ->
+    exists s',
+      start_conn ord cfg port s (c :: rest) =
+        ([mkLog (server_port port s) tls true (outs1 ++ [[InjectError (advertised_policy st1)]])], RErrEvent, s') /\
+      Forall only_writes outs1 /\ policy_dropped s' /\ server_port port s' = port.
+  Proof.
+    intros tls Hd Hh Htr Hdis Hev Hpre Hack Hbad.
+    pose proof (run_events_inv ord cfg tls pre (cap_init s)) as Inv1.
+    rewrite Hpre in Inv1. unfold run_inv in Inv1. cbn [fst snd cap_init st_sts] in Inv1.
+    destruct Inv1 as [Hall1 _].
+    destruct (ack_invalid_event ord cfg tls now st1 a toks _ Hdis (acks_sts_value st1 toks Hack) Hbad) as [Ho Hdrop].
+    assert (Hrun : run_events ord cfg tls (cap_init s) (cs_events c) =
+                   (fst (handle_cap ord cfg tls now st1 (ack_params a toks)),
+                    outs1 ++ [[InjectError (advertised_policy st1)]], StopError)).
+    { rewrite Hev. rewrite (run_events_app ord cfg tls pre _ _ _ now (ack_params a toks) post Hpre).
+      - rewrite Ho. reflexivity.
+      - rewrite Ho. discriminate. }
+    destruct (invalid_connect ord cfg port s c rest _ _ Hd Hh Htr Hrun) as [Eq [Hdr [Hsp _]]].
+    eexists. split; [exact Eq|]. split; [exact Hall1|]. split; [exact Hdr|exact Hsp].
+  Qed.
+End FromAck.
+
+(* ---- several Connect calls of the same client ------------------------------ *)
+Lemma persist_calls ord cfg port : forall calls s k sb c res,
+  nth_error (policies_before ord cfg port s calls) k = Some sb ->
+  nth_error calls k = Some c -> c <> [] ->
+  nth_error (connects ord cfg port s calls) k = Some res ->
+  sts_enabled sb = true ->
+  exists l, fst (fst res) = [l] /\ dialled l (upgrade_port sb) true.
+Proof.
+  induction calls as [|c0 r IH]; intros s k sb c res Hb Hc Hne Hr He; [destruct k; discriminate|].
+  destruct k as [|k].
+  - cbn in Hb, Hc, Hr. injection Hb as <-. injection Hc as <-. injection Hr as <-.
+    destruct c0 as [|c1 rest]; [contradiction|].
+    destruct (persist_call ord cfg port s c1 rest He) as [l [ret [s' [E D]]]].
+    exists l. rewrite E. split; [reflexivity|exact D].
+  - cbn in Hb, Hc, Hr. exact (IH _ k sb c res Hb Hc Hne Hr He).
+Qed.
+
+(* ---- is sts requested at all? (possibleCapList) ----------------------------- *)
+Lemma aget_fold_aset_keys {V} (k : str) (dflt : V) (l : list str) : forall m : amap V,
+  aget k (fold_left (fun o k' => aset k' dflt o) l m) =
+  if existsb (streqb k) l then Some dflt else aget k m.
+Proof.
+  induction l as [|x r IH]; intros m; [reflexivity|]. cbn [fold_left existsb]. rewrite IH.
+  destruct (streqb k x) eqn:E; cbn [orb].
+  - apply streqb_eq in E. subst x. destruct (existsb (streqb k) r); [reflexivity|apply aget_aset_eq].
+  - destruct (existsb (streqb k) r); [reflexivity|]. apply streqb_neq in E. apply aget_aset_neq. congruence.
+Qed.
+
+Lemma aget_none_keys {V} (k : str) (l : amap V) : aget k l = None -> forall kv, In kv l -> fst kv <> k.
+Proof.
+  induction l as [|[k' v'] r IH]; intros H kv Hin; [destruct Hin|]. simpl in H.
+  destruct (streqb k' k) eqn:E; [discriminate|]. destruct Hin as [<-|Hin].
+  - simpl. apply streqb_neq. exact E.
+  - apply IH; assumption.
+Qed.
+
+Lemma aget_fold_aset_kvs {V} (k : str) (l : amap V) : forall m : amap V,
+  (forall kv, In kv l -> fst kv <> k) ->
+  aget k (fold_left (fun o kv => aset (fst kv) (snd kv) o) l m) = aget k m.
+Proof.
+  induction l as [|x r IH]; intros m H; [reflexivity|]. cbn [fold_left]. rewrite IH.
+  - apply aget_aset_neq. apply H. left; reflexivity.
+  - intros kv Hin. apply H. right; exact Hin.
+Qed.
+
+Lemma sts_not_builtin : existsb (streqb s_sts) builtin_caps = false.
+Proof. reflexivity. Qed.
+
+(* sts is requestable exactly when STS is not disabled, SSL is not configured and we are
+   not inside the five-minute fallback window (given SupportedCaps does not list it) *)
+Lemma possible_caps_sts cfg recent :
+  aget s_sts (c_supported cfg) = None ->
+  amem s_sts (possible_caps cfg recent) =
+  negb (c_disable_sts cfg) && negb (c_ssl cfg) && negb (recent && negb (c_disable_fallback cfg)).
+Proof.
+  intros Hs. unfold amem, possible_caps.
+  rewrite aget_fold_aset_keys, sts_not_builtin.
+  rewrite aget_fold_aset_kvs by (apply aget_none_keys; exact Hs).
+  assert (Hsasl : forall m : amap (list str), aget s_sts (aset s_sasl [] m) = aget s_sts m).
+  { intros m. apply aget_aset_neq. discriminate. }
+  destruct (c_disable_sts cfg), (c_ssl cfg), recent, (c_disable_fallback cfg), (c_sasl cfg);
+    cbn [negb andb]; rewrite ?Hsasl; reflexivity.
+Qed.
+
+Lemma possible_caps_no_sts cfg recent :
+  aget s_sts (c_supported cfg) = None ->
+  c_disable_sts cfg = true \/ c_ssl cfg = true ->
+  aget s_sts (possible_caps cfg recent) = None.
+Proof.
+  intros Hs Hc. pose proof (possible_caps_sts cfg recent Hs) as H. unfold amem in H.
+  destruct (aget s_sts (possible_caps cfg recent)); [|reflexivity].
+  exfalso. destruct Hc as [Hc|Hc]; rewrite Hc in H; [|destruct (c_disable_sts cfg)]; simpl in H; discriminate.
+Qed.
+
+(* ---- a server that acknowledges only what was requested -------------------- *)
+Definition no_sts (st : cap_state) : Prop :=
+  aget s_sts (st_tmp st) = None /\ aget s_sts (st_enabled st) = None.
+
+Lemma aget_adel_none {V} (k k' : str) (m : amap V) : aget k m = None -> aget k (adel k' m) = None.
+Proof.
+  intros H. destruct (str_eq_dec k' k) as [->|Hne]; [apply aget_adel_eq|].
+  rewrite aget_adel_neq by exact Hne. exact H.
+Qed.
+
+Lemma fold_adel_none {V} (k : str) (ks : list str) : forall m : amap V,
+  aget k m = None -> aget k (fold_left (fun en k' => adel k' en) ks m) = None.
+Proof. induction ks as [|x r IH]; intros m H; [exact H|]. cbn [fold_left]. apply IH. apply aget_adel_none. exact H. Qed.
+
+Lemma ls_step_none possible tmp kv :
+  aget s_sts possible = None -> aget s_sts tmp = None -> aget s_sts (ls_step possible tmp kv) = None.
+Proof.
+  intros Hp Ht. unfold ls_step.
+  destruct (str_eq_dec (fst kv) s_sts) as [E|Hne].
+  - rewrite E, Hp. exact Ht.
+  - destruct (aget (fst kv) possible); [|exact Ht].
+    destruct (_ || _)%bool; [rewrite aget_aset_neq by exact Hne; exact Ht|].
+    destruct (contains_loop _ _); [rewrite aget_aset_neq by exact Hne; exact Ht|exact Ht].
+Qed.
+
+Lemma fold_ls_step_none possible l : forall tmp,
+  aget s_sts possible = None -> aget s_sts tmp = None ->
+  aget s_sts (fold_left (ls_step possible) l tmp) = None.
+Proof.
+  induction l as [|x r IH]; intros tmp Hp Ht; [exact Ht|]. cbn [fold_left]. apply IH; [exact Hp|].
+  apply ls_step_none; assumption.
+Qed.
+
+Lemma handle_cap_no_sts ord cfg tls now st params :
+  (forall recent, aget s_sts (possible_caps cfg recent) = None) ->
+  no_sts st -> honest_ack st params ->
+  no_sts (fst (handle_cap ord cfg tls now st params)) /\
+  st_sts (fst (handle_cap ord cfg tls now st params)) = st_sts st /\
+  only_writes (snd (handle_cap ord cfg tls now st params)).
+Proof.
+  intros Hposs [Ht He] Hh.
+  destruct (is_ack3 params) eqn:Ea.
+  - destruct (is_ack3_shape _ Ea) as [a [toks ->]].
+    assert (Hn : ~ acks_sts toks).
+    { intros Hin. specialize (Hh a toks eq_refl s_sts Hin). unfold amem in Hh. rewrite Ht in Hh. discriminate. }
+    rewrite handle_cap_ack. unfold ack_result. rewrite (not_acked_value st toks Hn), He.
+    destruct (finish_ack_quiet cfg (ack_enabled st toks) (st_sts st)) as [Hw Hs].
+    split; [|split; [exact Hs|exact Hw]].
+    unfold finish_ack. destruct (aget s_sasl _), (c_sasl cfg); cbn [fst]; (split; [reflexivity|]);
+      cbn [st_enabled]; rewrite (not_acked_value st toks Hn); exact He.
+  - destruct (handle_cap_other ord cfg tls now st params Ea) as [Hs Hw].
+    split; [|split; [exact Hs|exact Hw]].
+    unfold is_ack3 in Ea. unfold handle_cap, no_sts.
+    destruct (Nat.leb 2 (length params) && streqb (param1 params) s_DEL) eqn:E1.
+    { cbn [fst st_tmp st_enabled]. split; [exact Ht|]. apply fold_adel_none. exact He. }
+    destruct (Nat.leb 2 (length params) && streqb (param1 params) s_NAK) eqn:E2.
+    { cbn [fst]. split; assumption. }
+    cbv zeta. rewrite Ea.
+    assert (Htmp : aget s_sts
+                     (if Nat.leb 3 (length params) && (streqb (param1 params) s_LS || streqb (param1 params) s_NEW)
+                      then fold_left (ls_step (possible_caps cfg (recently_failed now (st_sts st))))
+                                     (parse_cap (last_or_empty params)) (st_tmp st)
+                      else st_tmp st) = None).
+    { destruct (Nat.leb 3 (length params) && _); [|exact Ht]. apply fold_ls_step_none; [apply Hposs|exact Ht]. }
+    match goal with |- context [if ?c then _ else _] =>
+      match c with (_ && Nat.eqb (length _) 0)%bool => destruct c end end;
+      cbn [fst st_tmp st_enabled]; split; assumption.
+Qed.
+
+Lemma run_events_no_sts ord cfg tls evs : forall st,
+  (forall recent, aget s_sts (possible_caps cfg recent) = None) ->
+  no_sts st -> honest_run ord cfg tls st evs ->
+  snd (run_events ord cfg tls st evs) = StopNone /\
+  st_sts (fst (fst (run_events ord cfg tls st evs))) = st_sts st /\
+  Forall only_writes (snd (fst (run_events ord cfg tls st evs))).
+Proof.
+  induction evs as [|[now ps] r IH]; intros st Hposs Hno Hrun.
+  { simpl. repeat split. constructor. }
+  inversion Hrun as [|st0 now0 ps0 r0 Hh Hrest]; subst.
+  destruct (handle_cap_no_sts ord cfg tls now st ps Hposs Hno Hh) as [Hno' [Hs Hw]].
+  rewrite run_events_cons. cbv zeta. rewrite (stop_of_writes _ Hw).
+  destruct (IH _ Hposs Hno' Hrest) as [Hk [Hs2 Hall]].
+  cbn [fst snd]. split; [exact Hk|]. split; [rewrite Hs2; exact Hs|]. constructor; assumption.
+Qed.
+
+(* configured SSL, one Connect call of a client that holds no policy *)
+Lemma ssl_connect ord cfg port s c rest :
+  c_ssl cfg = true -> aget s_sts (c_supported cfg) = None -> sts_enabled s = false ->
+  honest_run ord cfg true (cap_init s) (if c_tracking cfg then cs_events c else []) ->
+  exists l ret s', start_conn ord cfg port s (c :: rest) = ([l], ret, s') /\
+                   dialled l port true /\ Forall only_writes (l_outs l) /\
+                   ret <> RErrEvent /\ ret <> RSTSUpgradeFailed /\ sts_enabled s' = false.
+Proof.
+  intros Hssl Hsup He Hrun.
+  assert (Hposs : forall recent, aget s_sts (possible_caps cfg recent) = None).
+  { intros recent. apply possible_caps_no_sts; [exact Hsup|right; exact Hssl]. }
+  cbn [start_conn]. unfold new_conn. rewrite Hssl, He. cbn [orb]. rewrite (server_port_disabled port s He).
+  destruct (cs_dial_ok c); cbn [negb].
+  2:{ do 3 eexists. split; [reflexivity|]. split; [split; reflexivity|]. split; [constructor|].
+      split; [discriminate|]. split; [discriminate|].
+      destruct (sts_expired (cs_dial_now c) s && negb (c_disable_fallback cfg)); [reflexivity|exact He]. }
+  cbn [andb]. destruct (negb (cs_hs_ok c)).
+  { do 3 eexists. split; [reflexivity|]. split; [split; reflexivity|]. split; [constructor|].
+    split; [discriminate|]. split; [discriminate|exact He]. }
+  destruct (run_events_no_sts ord cfg true _ (cap_init s) Hposs (conj eq_refl eq_refl) Hrun) as [Hk [Hs Hall]].
+  destruct (run_events ord cfg true (cap_init s) (if c_tracking cfg then cs_events c else [])) as [[st outs] k].
+  cbn [fst snd cap_init st_sts] in *. subst k. rewrite Hs, He.
+  destruct (cs_end c); do 3 eexists; (split; [reflexivity|]); (split; [split; reflexivity|]);
+    (split; [exact Hall|]); (split; [discriminate|]); (split; [discriminate|exact He]).
+Qed.
